@@ -150,6 +150,14 @@ def Conf.lookup (c : Conf) (key : String) : Option Int :=
   if key = "logsink_queue_size" then c.queueSize else if key = "max_wait_time" then c.maxWait
   else if key = "max_buffer_size" then c.maxBuf else if key = "logsink_zip_min_size" then c.zipMin else none
 
+/-- `if this.logsinkQueueSize != queueSize { this.logsinkQueueSize = queueSize … }` is the unconditional
+    assignment (which is how the translator records that `if`) -/
+theorem conditional_set_is_set (s : Settings) (q : Int) :
+    (if s.queueCap ≠ q then s.set .queueCap q else s) = s.set .queueCap q := by
+  by_cases h : s.queueCap = q
+  · subst h; simp [Settings.set]
+  · simp [h]
+
 theorem applyKeys_ref_is_resolve (c : Conf) (s : Settings) : applyKeys refConfigKeys c.lookup s = c.resolve := by
   simp [applyKeys, refConfigKeys, Conf.lookup, Settings.set, Conf.resolve, confFallback]
 
